@@ -18,7 +18,9 @@ RULE = (
     "enumerated: every (n_protocol_calls 0..200, n_command_calls 0..70, order) prefix on both "
     "implementations from a fresh object (covers every reachable counter state and both wraps; "
     "exhaustive for the state space); generated: random call sequences (<=700 ops), real-thread "
-    "runs with a GIL-yielding counter shim, and wire checks of queued/sent datagrams. "
+    "runs with a GIL-yielding counter shim, and wire checks: every datagram the threaded client queues for set-value / key-press / "
+    "watercare / refresh / STATQ, and every datagram a really connected async client puts on the virtual wire for key-press / "
+    "set-value / GETWC / SETWC / REQRM / STATU / CURCH / STATQ after generated counter pre-advances (incl. just before both wraps). "
     "Non-trivial = the sequence crosses a wrap (191->1 or 255->192) or >=2 threads overlap or a "
     "pack command is on the wire; distinct by canonical case."
 )
@@ -191,7 +193,22 @@ def strategy(tier):
         ),
         st.tuples(st.integers(0, 200), st.integers(0, 70)).map(list),
     )
-    return st.one_of(seqs, seqs, threads, wire)
+    wire_async = st.builds(
+        lambda ops, pre: {"k": "wire_async", "ops": ops, "pre": pre},
+        st.lists(
+            st.one_of(
+                st.tuples(st.just("set"), st.integers(0, 1022), st.integers(0, 1), st.integers(0, 255)),
+                st.tuples(st.just("press"), st.integers(0, 23)),
+                st.tuples(st.just("getwc")), st.tuples(st.just("setwc"), st.integers(0, 4)), st.tuples(st.just("rem")),
+                st.tuples(st.just("refresh")), st.tuples(st.just("channel")),
+                st.tuples(st.just("statp"), st.integers(0, 1000), st.integers(0, 255)),
+            ).map(list),
+            min_size=1,
+            max_size=10,
+        ),
+        st.one_of(st.tuples(st.integers(0, 200), st.integers(0, 70)), st.tuples(st.integers(170, 190), st.integers(55, 64))).map(list),
+    )
+    return st.one_of(seqs, seqs, threads, wire, wire_async)
 
 
 # ---------------------------------------------------------------- real threads
